@@ -422,6 +422,13 @@ func runC13(cfg runCfg) error {
 		case 1:
 			cancelAt = r.Intn(4)
 		}
+		if big && r.Intn(2) == 0 {
+			// one document of a batched lookup round fails (or the whole service does): the other documents of the round,
+			// and whatever was started for them, must be gone with the response all the same
+			target := []string{"Movie#0", "Movie#1", "*"}[r.Intn(3)]
+			faults = append(faults, faultSpec{Svc: "C", Target: target, Kind: faultKinds[r.Intn(5)]})
+			sum.Features["batched_round_with_a_failing_document"]++
+		}
 		env.world.faultFor = makeFaultFor(env.fed, faults)
 		run, rel, err := env.runScheduled(q, vars, nil, r.Intn(1000), cancelAt)
 		env.world.faultFor = nil
